@@ -30,6 +30,6 @@ if hasattr(t, "contract"):
                 except Exception as e:
                     print("        cex err", e)
 else:
-    r = t.run("quick", 0)
+    r = t.run_unit(0, "quick") if hasattr(t, "run_unit") else t.run("quick", 0)
     for o in r["obligations"]:
         print("  ", o["name"], o["status"], o["detail"])
